@@ -306,10 +306,15 @@ fn do_sample(cx: &SimCtx, phase: &'static str) {
 #[cfg(feature = "f_metrics")]
 pub fn metrics_event(sh: &Shared, actor: usize, r: &ActorRef<SA>, via: &'static str) {
     let pre = sh.log.len() as u64;
-    let count = r.message_count();
-    let avg = r.avg_processing_time();
-    let max = r.max_processing_time();
-    let snap = r.metrics();
+    // reading metrics is a pure observation: it must never take the reader down with it
+    let read = std::panic::catch_unwind(std::panic::AssertUnwindSafe(|| (r.message_count(), r.avg_processing_time(), r.max_processing_time(), r.metrics())));
+    let (count, avg, max, snap) = match read {
+        Ok(x) => x,
+        Err(p) => {
+            sh.viol(format!("C20 reading the metrics of actor {actor} via {via} panicked in the reader: {}", crate::ev::panic_payload_to_string(p.as_ref())));
+            return;
+        }
+    };
     sh.log.push(K::Metrics {
         actor,
         via,
